@@ -104,8 +104,9 @@ Print Assumptions C04_remove_ind_former_witness_ok.
    internal), contract_nodes_pair without precomputed figures and WITH precomputed legs / cost /
    size that satisfy the tree rule (what C04_anneal_rule_is_tree_rule delivers), _update_tracked,
    the cached getters get_legs (incl. the leaves-union fallback), get_involved, get_size, get_flops,
-   and the contractor-cache events.  NOT yet proved: contract_stats / total_flops / total_write /
-   max_size (needs: the dfs traversal enumerates `children`), remove_ind, restore_ind, the recipe
+   contract_stats (precondition: the dfs traversal enumerates the keys of `children` -- a complete
+   tree -- and they all have info entries) and the contractor-cache events.  NOT yet proved:
+   total_flops / total_write / max_size (same argument as contract_stats), remove_ind, restore_ind, the recipe
    getters and sort/reset of contraction indices (these do not touch cost fields but are not
    covered by the statement).  Hence the `_partial` suffix. *)
 Theorem C04_prim_preserves_inv_partial : forall n, 2 <= NN n -> NoDup (output n) ->
@@ -142,11 +143,11 @@ Print Assumptions C04_cached_legs_are_rebuild.
    figures come from compute_contracted_info) satisfies every precondition *)
 Example C04_trace_nonvacuous :
   let tr := [PPair [0] [1] None None None; PGet GSize [0;1]; PPair [0;1] [2] None None None;
-             PGet GFlops [0;1;2]; PRemoveNode [0;1;2]; PPair [0;1] [2] None None None] in
+             PGet GFlops [0;1;2]; PStats false; PRemoveNode [0;1;2]; PPair [0;1] [2] None None None] in
   pre_trace ex_net (prim_pre ex_net) tr (init_state ex_net) /\ 2 <= NN ex_net /\ NoDup (output ex_net).
 Proof.
   cbn zeta. split; [|split; [vm_compute; lia|repeat constructor; cbn; intuition lia]].
-  cbn [pre_trace prim_pre].
+  cbn [pre_trace prim_pre prim_pre0].
   repeat match goal with
   | |- _ /\ _ => split
   | |- pair_pre _ _ _ _ _ _ _ => unfold pair_pre
@@ -154,6 +155,7 @@ Proof.
   | |- good_node _ _ => unfold good_node, inrange
   | |- inrange _ _ => unfold inrange
   | |- True => exact I
+  | |- stats_pre _ _ _ => intros _; exists [([0;1], ([0], [1])); ([0;1;2], ([0;1], [2]))]; split; [vm_compute; reflexivity|split; [vm_compute; apply Permutation_refl|intros q Hq; vm_compute in Hq; destruct Hq as [<-|[<-|[]]]; vm_compute; discriminate]]
   | |- NoDup _ => repeat constructor; cbn; intuition lia
   | |- forall _, None = Some _ -> _ => intros ? ?; discriminate
   | |- _ <> [] => discriminate
